@@ -87,8 +87,9 @@ func render(units []unit) (src string) {
 
 // Job/JobResult: the Wa side of one program, run in a worker subprocess.
 type Job struct {
-	Src string
-	N   int
+	Src  string
+	N    int
+	Mode string // "" / "wa": wasm build on the embedded engine; "native": linux/x64 executable
 }
 type JobResult struct {
 	Res   []wrun.CaseResult
@@ -102,7 +103,14 @@ func HandleJob(raw json.RawMessage) interface{} {
 	if err := json.Unmarshal(raw, &j); err != nil {
 		return JobResult{Err: err.Error()}
 	}
-	res, wa, err := wrun.RunWaBatch(j.Src, j.N)
+	var res []wrun.CaseResult
+	var wa string
+	var err error
+	if j.Mode == "native" {
+		res, wa, err = wrun.RunNativeBatch(j.Src, j.N)
+	} else {
+		res, wa, err = wrun.RunWaBatch(j.Src, j.N)
+	}
 	out := JobResult{Res: res}
 	if err != nil {
 		out.Err = err.Error()
@@ -113,6 +121,9 @@ func HandleJob(raw json.RawMessage) interface{} {
 
 // Options for Run.
 type Options struct {
+	// Ref selects the reference side: "" / "go" = host Go toolchain, "wa" = the wasm build on the
+	// embedded engine. Impl selects the side under test: "" / "wa" or "native".
+	Ref, Impl       string
 	CasesPerProgram int
 	KeyPrefix       string // e.g. "C01"
 	// Compare decides whether a Wa result matches the Go reference; default: equal output and Wa ok.
@@ -131,17 +142,42 @@ type progOutcome struct {
 	waSe  string
 }
 
-func runPrograms(r *mc.Run, pool *mc.Pool, srcs []string, ns []int) []progOutcome {
+func runPrograms(r *mc.Run, pool *mc.Pool, srcs []string, ns []int, opt Options) []progOutcome {
 	out := make([]progOutcome, len(srcs))
 	var wg sync.WaitGroup
 	wg.Add(1)
 	go func() {
 		defer wg.Done()
+		if opt.Ref == "wa" {
+			pool.Run(len(srcs), func(i int) interface{} { return Job{Src: srcs[i], N: ns[i], Mode: "wa"} }, 10*time.Minute, func(res mc.Result) {
+				o := &out[res.Index]
+				var jr JobResult
+				if res.Status != "ok" {
+					o.goErr = fmt.Errorf("reference (wasm build) worker %s: %s", res.Status, tailStr(res.Stderr, 400))
+					return
+				}
+				if err := json.Unmarshal(res.Out, &jr); err != nil {
+					o.goErr = err
+					return
+				}
+				if jr.Err != "" {
+					o.goErr = fmt.Errorf("reference (wasm build): %s", jr.Err)
+					return
+				}
+				o.goRes = jr.Res
+				for k := range o.goRes {
+					if o.goRes[k].Status == "trap" {
+						o.goRes[k].Status = "panic" // abnormal termination of the reference: out of domain
+					}
+				}
+			})
+			return
+		}
 		mc.ParallelFor(len(srcs), func(i int) {
 			out[i].goRes, out[i].goErr = wrun.GoRef(srcs[i], ns[i])
 		})
 	}()
-	pool.Run(len(srcs), func(i int) interface{} { return Job{Src: srcs[i], N: ns[i]} }, 10*time.Minute, func(res mc.Result) {
+	pool.Run(len(srcs), func(i int) interface{} { return Job{Src: srcs[i], N: ns[i], Mode: opt.Impl} }, 10*time.Minute, func(res mc.Result) {
 		o := &out[res.Index]
 		o.waSt, o.waSe = res.Status, res.Stderr
 		if res.Status == "ok" {
@@ -221,7 +257,7 @@ func runUnits(r *mc.Run, pool *mc.Pool, fam *Family, units []unit, opt Options, 
 		ns = append(ns, hi-lo)
 		spans = append(spans, [2]int{lo, hi})
 	}
-	outs := runPrograms(r, pool, srcs, ns)
+	outs := runPrograms(r, pool, srcs, ns, opt)
 	for pi, o := range outs {
 		us := units[spans[pi][0]:spans[pi][1]]
 		if o.goErr != nil {
@@ -253,12 +289,17 @@ func runUnits(r *mc.Run, pool *mc.Pool, fam *Family, units []unit, opt Options, 
 			}
 			it := u.g.Items[u.items[0]]
 			r.Evals.Add(1)
-			r.Report(opt.KeyPrefix+"|"+it.Key+"|compile", fmt.Sprintf("%s/%s %s: Go runs it (output %q) but the Wa pipeline fails: %s", fam.Name, u.g.Name, it.Desc, clip(o.goRes[0].Out), firstLines(what, 3)),
+			r.Report(opt.KeyPrefix+"|"+it.Key+"|compile", fmt.Sprintf("%s/%s %s: "+refName(opt)+" runs it (output %q) but the "+implName(opt)+" pipeline fails: %s", fam.Name, u.g.Name, it.Desc, clip(o.goRes[0].Out), firstLines(what, 3)),
 				map[string]interface{}{"family": fam.Name, "group": u.g.Name, "item": it.Desc, "go_source": srcs[pi]})
 			continue
 		}
 		for ci, u := range us {
 			g, w := o.goRes[ci], o.wa.Res[ci]
+			if w.Status == "missing" {
+				// the process died in an earlier case of this program (native executables): run again
+				todo = append(todo, u)
+				continue
+			}
 			gs, gn, _ := splitItems(g.Out, len(u.items))
 			ws, wn, wrest := splitItems(w.Out, len(u.items))
 			for k, ii := range u.items {
@@ -281,12 +322,12 @@ func runUnits(r *mc.Run, pool *mc.Pool, fam *Family, units []unit, opt Options, 
 						}
 						continue
 					}
-					r.Report(opt.KeyPrefix+"|"+it.Key, fmt.Sprintf("%s/%s %s: Go prints %q, Wa prints %q", fam.Name, u.g.Name, it.Desc, clip(gs[k]), clip(ws[k])),
+					r.Report(opt.KeyPrefix+"|"+it.Key, fmt.Sprintf("%s/%s %s: "+refName(opt)+" prints %q, "+implName(opt)+" prints %q", fam.Name, u.g.Name, it.Desc, clip(gs[k]), clip(ws[k])),
 						map[string]interface{}{"family": fam.Name, "group": u.g.Name, "item": it.Desc, "stmts": it.Stmts, "go": gs[k], "wa": ws[k]})
 					continue
 				}
 				// Wa did not complete item k: it trapped (or returned early) inside it
-				r.Report(opt.KeyPrefix+"|"+it.Key, fmt.Sprintf("%s/%s %s: Go prints %q and continues, Wa %s: %s (output of the item so far %q)", fam.Name, u.g.Name, it.Desc, clip(gs[k]), w.Status, w.Err, clip(wrest)),
+				r.Report(opt.KeyPrefix+"|"+it.Key, fmt.Sprintf("%s/%s %s: "+refName(opt)+" prints %q and continues, "+implName(opt)+" %s: %s (output of the item so far %q)", fam.Name, u.g.Name, it.Desc, clip(gs[k]), w.Status, w.Err, clip(wrest)),
 					map[string]interface{}{"family": fam.Name, "group": u.g.Name, "item": it.Desc, "stmts": it.Stmts, "go": gs[k], "wa_status": w.Status, "wa_err": w.Err})
 				if k+1 < len(u.items) {
 					todo = append(todo, unit{u.g, u.items[k+1:]})
@@ -296,6 +337,20 @@ func runUnits(r *mc.Run, pool *mc.Pool, fam *Family, units []unit, opt Options, 
 		}
 	}
 	return todo
+}
+
+func refName(o Options) string {
+	if o.Ref == "wa" {
+		return "the wasm build"
+	}
+	return "Go"
+}
+
+func implName(o Options) string {
+	if o.Impl == "native" {
+		return "the native executable"
+	}
+	return "Wa"
 }
 
 func clip(s string) string {
